@@ -14,6 +14,7 @@ import (
 	"bufio"
 	"encoding/json"
 	"fmt"
+	"math"
 	"os"
 	"os/signal"
 	"path/filepath"
@@ -25,6 +26,7 @@ import (
 	"time"
 
 	"github.com/ozontech/seq-db/conf"
+	"github.com/ozontech/seq-db/fracmanager"
 	"github.com/ozontech/seq-db/seq"
 	"github.com/ozontech/seq-db/verifhook"
 
@@ -48,6 +50,8 @@ type Cmd struct {
 	Hints []string          `json:"hints,omitempty"`
 	Bytes uint64            `json:"bytes,omitempty"`
 	Aggs  []harness.AggSpec `json:"aggs,omitempty"`
+	ID    string            `json:"id,omitempty"`
+	Async bool              `json:"async,omitempty"`
 }
 
 type Resp struct {
@@ -62,6 +66,9 @@ type Resp struct {
 	Arg     string            `json:"arg,omitempty"`
 	Fracs   []FracInfo        `json:"fracs,omitempty"`
 	Points  []string          `json:"points,omitempty"`
+	Aggs    []harness.AggOut  `json:"aggs,omitempty"`
+	Done    bool              `json:"done,omitempty"`
+	Found   bool              `json:"found,omitempty"`
 }
 
 type FracInfo struct {
@@ -150,6 +157,7 @@ func main() {
 	verifhook.Set(hook)
 	in := bufio.NewReaderSize(os.Stdin, 1<<20)
 	var st *harness.Store
+	var as *fracmanager.AsyncSearcher
 	dec := json.NewDecoder(in)
 	for {
 		var c Cmd
@@ -167,7 +175,32 @@ func main() {
 				continue
 			}
 			st = s
+			if c.Async {
+				as = fracmanager.MustStartAsync(fracmanager.AsyncSearcherConfig{DataDir: filepath.Join(c.Dir, "async_searches"), Parallelism: 2}, harness.MappingProv{}, st.FM)
+			}
 			reply(Resp{OK: true})
+		case "startasync":
+			params, err := st.Params(c.Req, c.Text, c.Aggs)
+			if err != nil {
+				reply(Resp{Err: err.Error()})
+				continue
+			}
+			params.AST = nil // parsed by the async searcher, as the gRPC handler leaves it
+			params.Limit = math.MaxInt32
+			params.WithTotal = false
+			if err := as.StartSearch(fracmanager.AsyncSearchRequest{ID: c.ID, Query: c.Text, Params: params, Retention: 24 * time.Hour}); err != nil {
+				reply(Resp{Err: err.Error()})
+				continue
+			}
+			reply(Resp{OK: true})
+		case "fetchasync":
+			fr, ok := as.FetchSearchResult(fracmanager.FetchSearchResultRequest{ID: c.ID})
+			if !ok {
+				reply(Resp{OK: true, Found: false})
+				continue
+			}
+			q := fr.QPR
+			reply(Resp{OK: true, Found: true, Done: fr.Done, IDs: harness.FromSeqIDs(q.IDs), Total: q.Total, Hist: harness.HistOf(&q), Aggs: harness.AggOuts(&q, c.Aggs)})
 		case "arm":
 			a := &armed{point: c.Point, arg: c.Arg}
 			n := c.N
@@ -220,7 +253,7 @@ func main() {
 				reply(Resp{Err: err.Error()})
 				continue
 			}
-			reply(Resp{OK: true, IDs: harness.FromSeqIDs(qpr.IDs), Total: qpr.Total, Hist: harness.HistOf(qpr)})
+			reply(Resp{OK: true, IDs: harness.FromSeqIDs(qpr.IDs), Total: qpr.Total, Hist: harness.HistOf(qpr), Aggs: harness.AggOuts(qpr, c.Aggs)})
 		case "fetch":
 			ids := harness.ToSeqIDs(c.IDs)
 			for i := range ids {
